@@ -11,7 +11,7 @@ import tempfile
 
 VERIF = os.path.dirname(os.path.dirname(os.path.abspath(__file__)))
 sys.path.insert(0, VERIF)
-from tools.mutant_list import MUTANTS   # noqa
+from tools.mutant_list import MUTANTS, EQUIVALENT   # noqa
 
 
 NPROC = 0
@@ -39,6 +39,8 @@ def run_one(m, tier, keep=False):
         if p.returncode == 1:
             return 'KILLED', tail
         if p.returncode == 0:
+            if m['name'] in EQUIVALENT:
+                return 'EQUIVALENT', EQUIVALENT[m['name']]
             return 'SURVIVED', tail
         return 'HARNESS-ERROR(rc=%d)' % p.returncode, tail + p.stderr[-500:]
     finally:
@@ -79,7 +81,7 @@ def main():
     if os.path.exists(out):
         old = [r for r in json.load(open(out)) if (r['prop'], r['name']) not in {(x['prop'], x['name']) for x in res}]
     json.dump(sorted(old + res, key=lambda r: (r['prop'], r['name'])), open(out, 'w'), indent=1)
-    bad = [r for r in res if r['status'] != 'KILLED']
+    bad = [r for r in res if r['status'] not in ('KILLED', 'EQUIVALENT')]
     print('%d mutants, %d killed, %d not killed' % (len(res), len(res) - len(bad), len(bad)))
     return 1 if bad else 0
 
